@@ -23,7 +23,7 @@ def run_all():
 def main():
     seeds = sys.argv[1:]
     items = []
-    for d in sorted(glob.glob("/tmp/wt/C*/MUTANT*") + glob.glob("/tmp/wt/R2_C*/MUTANT*") + glob.glob("/tmp/wt/R3_C*/MUTANT*") + glob.glob("/tmp/wt/R4_C*/MUTANT*") + glob.glob("/tmp/wt/R5_C*/MUTANT*") + glob.glob("/tmp/wt/R6_C*/MUTANT*")):
+    for d in sorted(glob.glob("/tmp/wt/C*/MUTANT*") + glob.glob("/tmp/wt/R2_C*/MUTANT*") + glob.glob("/tmp/wt/R3_C*/MUTANT*") + glob.glob("/tmp/wt/R4_C*/MUTANT*") + glob.glob("/tmp/wt/R5_C*/MUTANT*") + glob.glob("/tmp/wt/R6_C*/MUTANT*") + glob.glob("/tmp/wt/R7_C*/MUTANT*")):
         sid = "%s-m%s" % (d.split("/")[3], d[-1])
         pf = os.path.join(d, "patch.diff")
         for alt in ("patch.rebased3.diff", "patch.rebased2.diff", "patch.rebased.diff"):
@@ -63,7 +63,7 @@ def main():
             sh("git -C %s checkout -- src && git -C %s clean -fdq -- src" % (TARGET, TARGET))
         flagged = [p for p in PROPS if res[p]["rc"] == 1]
         infra = [p for p in PROPS if res[p]["rc"] not in (0, 1)]
-        own = sid.split("-")[0].replace("R2_", "").replace("R3_", "").replace("R4_", "").replace("R5_", "").replace("R6_", "")
+        own = sid.split("-")[0].replace("R2_", "").replace("R3_", "").replace("R4_", "").replace("R5_", "").replace("R6_", "").replace("R7_", "")
         out[sid] = {"own_property": own, "own_flags": own in flagged, "flagged_by": flagged, "infra": infra,
                     "rules": {p: res[p]["rules"] for p in flagged}}
         print(sid, "own:", own in flagged, "by:", ",".join(flagged), "infra:", infra, flush=True)
